@@ -98,7 +98,8 @@ def shapes(S, base, tier):
     out = [("e0", [])]
     for k in (1, 2):
         out.append(("f%d" % k, [None] * k))
-    out.append(("base", list(base)))
+    if tier == "thorough":
+        out.append(("base", list(base)))     # quick: subsumed by the r<p> shapes (the free child can take the base tag)
     for p in range(n):
         if n - 1 - p <= 2 or tier == "thorough":
             s = list(base); s[p] = None
@@ -132,7 +133,7 @@ TEMPLATES = [
     ("KSI_AggregationRespPdu", [0x01, 0x02, 0x1f], [], "quick"),
     ("KSI_ExtendRespPdu", [0x01, 0x02, 0x1f], [], "quick"),
     ("KSI_PublicationsFile", [0x0701, 0x0702, 0x0703, 0x0704], ["publicationsfile"], "quick"),
-    ("KSI_AggregationPdu", [0x01, 0x202, 0x1f], [], "quick"),
+    ("KSI_AggregationPdu", [0x01, 0x202, 0x1f], [], "thorough"),
     ("KSI_ExtendPdu", [0x01, 0x302, 0x1f], [], "thorough"),
     ("KSI_AggregationReqPdu", [0x01, 0x02, 0x1f], [], "thorough"),
     ("KSI_ExtendReqPdu", [0x01, 0x02, 0x1f], [], "thorough"),
@@ -184,7 +185,7 @@ def tmpl_harness(name, base, extra_tus, tier):
                       "storeObjectValue", "getTemplateLength", "TLVListIterator_next", "KSI_TLV_new", "KSI_TLV_getNestedList"],
         "bound": "real table %s_template (rows copied, function-pointer columns and sub-template redirected to recording stubs; every "
                  "indirect call of the engine restricted to those stubs by goto-instrument, which turns the restriction into a proof obligation) "
-                 "vs. schema.h; child sequences: 0..2 free children, the valid base sequence %s, the base with any one position replaced by a free "
+                 "vs. schema.h; child sequences: 0..2 free children, the base sequence %s with any one position replaced by a free "
                  "child, the base with one free child inserted at any position (thorough: 3 free children, two replacements/insertions); a free "
                  "child = symbolic tag over the schema alphabet plus a symbolic unknown tag; all children: symbolic non-critical and forward "
                  "flags and symbolic leaf-parser outcome" % (name, [hex(t) for t in base]),
